@@ -22,7 +22,7 @@ func init() {
 				"(window) on every path to the re-pricing call in BeginBlock the block height satisfies height mod period == 1 and either no price was ever recorded or the block's header time has 12 ≤ hour ≤ 14 and header time − previous update > 3 h (constants evaluated), all times being req.Header.Time (C08.source separately forbids the wall clock); " +
 				"(round) the whole-percent price change that is compared with −10 is computed with big.Int.Div (rounds down), not Quo (truncates); (mint) EndBlock advances the emission counter by App().Reward()'s per-block value, credits the positive difference between that value and the validators' reward to the zero address (the withheld part is burned), includes the difference in `reward`, and reports `reward` as the base-coin volume minted.",
 			Assumptions: stdAssumptions,
-			Rules:       []string{"C28.cap", "C28.window", "C28.mint", "C28.round"},
+			Rules:       []string{"C28.cap", "C28.window", "C28.mint", "C28.round", "C28.store"},
 		},
 		Run: runC28,
 	})
@@ -48,6 +48,7 @@ func capFact(facts []core.Fact, want bool) bool {
 }
 
 func runC28(c *core.Ctx) {
+	defer checkRewardStore(c, "C28.store")
 	// ---- the constant
 	if p := c.PkgBy["coreV2/rewards"]; p != nil {
 		k, ok := p.Types.Scope().Lookup("TotalEmission").(*types.Const)
@@ -444,4 +445,77 @@ func checkPercentRounding(c *core.Ctx, rule string) {
 			"the whole-percent price change compared with −10 is produced by "+strings.Join(how, ", ")+" instead of big.Int.Div: a drop strictly between 9 % and 10 % is truncated toward zero to −9 and no longer switches the validators' reward off")
 	}
 	c.Floor(rule, n, 1, "comparisons of the price change with −10")
+}
+
+// checkRewardStore — C28.store. BeginBlock hands the reward pair of the block (the validators'
+// share and the price-derived reward) to App.SetReward, which stores both. The only case in
+// which it may skip the store is the degenerate one it was written for — after the cap the pair
+// is (0, 0) on every block: the price-derived reward is zero and was zero before. A shortcut
+// that only asks whether one of the two values is unchanged silently drops a change of the
+// other (the validators' share growing back after a price fall while the pool is idle).
+// Decided: every return of SetReward that does not pass the storing call lies behind a zero
+// test of a parameter that the storing call receives.
+func checkRewardStore(c *core.Ctx, rule string) {
+	at := c.Named(core.PkgState+"/app", "App")
+	if at == nil {
+		c.Unk(rule, "app.App", token.NoPos, "type not found")
+		return
+	}
+	fn := c.Method(at, "SetReward")
+	if fn == nil {
+		c.Unk(rule, "App.SetReward", token.NoPos, "method not found")
+		return
+	}
+	// the storing call: a callee (in the package) that receives the big.Int parameters
+	var store *core.Site
+	params := map[ssa.Value]bool{}
+	for _, p := range fn.Params {
+		if isBigPtr(p.Type()) {
+			params[p] = true
+		}
+	}
+	for _, s := range core.Sites(fn) {
+		sc := s.Common.StaticCallee()
+		if sc == nil || core.PkgOf(sc) != core.PkgOf(fn) {
+			continue
+		}
+		k := 0
+		for _, a := range s.Common.Args {
+			if params[core.Unwrap(a)] {
+				k++
+			}
+		}
+		if k == len(params) && k > 0 {
+			store = s
+		}
+	}
+	if store == nil {
+		c.Bad(rule, "App.SetReward/store", fn.Pos(), "SetReward no longer hands both reward values to the model's setter")
+		return
+	}
+	c.OK(rule, "App.SetReward/store", store.Pos(), "both reward values are handed to "+store.Common.StaticCallee().Name())
+	n := 0
+	afterStore := core.ReachFrom(store.Block(), nil)
+	for _, r := range core.Returns(fn) {
+		if r.Block() == fn.Recover || r.Block() == store.Block() || afterStore[r.Block()] {
+			continue
+		}
+		n++
+		zeroTested := false
+		for _, g := range core.GatesBefore(r) {
+			bin, ok := g.If.Cond.(*ssa.BinOp)
+			if !ok {
+				continue
+			}
+			call, ok := core.Unwrap(bin.X).(*ssa.Call)
+			if !ok || core.CalleeName(&call.Call) != "(*math/big.Int).Sign" || !params[core.Unwrap(call.Call.Args[0])] {
+				continue
+			}
+			if k, ok := core.ConstInt(bin.Y); ok && k == 0 && ((bin.Op == token.EQL && g.PassTrue) || (bin.Op == token.NEQ && !g.PassTrue)) {
+				zeroTested = true
+			}
+		}
+		c.Check(zeroTested, rule, fmt.Sprintf("App.SetReward/skip#%d", n), r.Pos(), "the store is skipped only for a zero reward (the pair (0, 0) repeated after the cap)",
+			"SetReward can return without storing although the reward handed in is not zero: a change of the value the shortcut does not compare (the validators' share) is dropped, and the blocks until the next price change burn what should have been paid")
+	}
 }
